@@ -35,7 +35,8 @@ Returns:
       w = sum(abs(weights**p), axis=axis)**(1./p)
     except FloatingPointError: # use the infinity norm
       w = max(abs(weights), axis=axis)
-    seterr(**orig)
+    finally:
+      seterr(**orig)
   return w if (axis is None or not w.shape) else expand_dims(w, axis=axis)
 
 def absolute_distance(x, xp=None, pair=False, dmin=0):
@@ -186,7 +187,8 @@ Notes:
       d = (d**p).sum(axis=axis)**(1./p)
   except FloatingPointError: # use the infinity norm
       d = d.max(axis=axis).astype(float)
-  seterr(**orig)
+  finally:
+      seterr(**orig)
   return d
 
 
